@@ -94,6 +94,10 @@ fn rec<T: Scalar, S: Clone>(
                     rec::<T, S>(&c, alpha, depth, st, f, on_panic, hist);
                 } else {
                     st.traces += 1;
+                    // keep a late (not the all-first-letter) leaf as a sample of what was run
+                    if st.sample_traces.len() < 2 && st.traces % 97 == 5 {
+                        st.sample_traces.push(hist.clone());
+                    }
                 }
             }
             Ok((_, Step::Prune)) => {
